@@ -333,7 +333,7 @@ pub fn run(seed: u64, n: usize, out: &Path, _thorough: bool) -> anyhow::Result<(
         if panicked { stats.inc("panicked"); }
         if outcome.is_none() && is_bob { stats.inc("bob_outcome_unavailable"); }
         let coq = format!(
-            "(mkCase {} [{}] {} {} {} {} {} {} {} [{}] [{}] [{}] {} {})",
+            "(Drv (mkCase {} [{}] {} {} {} {} {} {} {} [{}] [{}] [{}] {} {}))",
             cbool(is_bob), hist.join("; "), coption(accept, |r| reason_n(r).to_string()), n256(&ns), now,
             clist(&script, |f| cfin(&uni, f)), kind, coption(namespace, |n| n256(n.as_bytes())),
             coption(outcome, |(r, s)| format!("({}, {})", r, s)), csent.join("; "), before_c.join("; "), after_c.join("; "),
@@ -348,6 +348,13 @@ pub fn run(seed: u64, n: usize, out: &Path, _thorough: bool) -> anyhow::Result<(
         if !script.is_empty() && distinct.insert(coq.clone()) {
             stats.inc("distinct_nontrivial");
         }
+        cw.push(coq, json)?;
+    }
+    // the outermost layer: connect_and_sync against handle_connection over real local endpoints
+    let n_net = if _thorough { 80 } else { 10 };
+    for _ in 0..n_net {
+        let (coq, json) = rt.block_on(crate::c10net::net_case(&mut rng, &mut stats))?;
+        if distinct.insert(coq.clone()) { stats.inc("distinct_nontrivial"); }
         cw.push(coq, json)?;
     }
     cw.flush()?;
